@@ -1,23 +1,29 @@
 """C17 — a seed fully determines every stochastic result.
 
-1. translator: Python source -> lean/XgiModel/Generated/SeedTable.lean (RNG-effect list per seeded function);
-2. lake build + audit of Props/C17.lean (`wellSeeded_sound` generic, `C17_table` by `decide` on the table);
-   if the table theorem does not check, the driver names the functions that are not well seeded;
+1. translator (under the project lock, together with build + audit): Python source ->
+   lean/XgiModel/Generated/SeedTable.lean: the RNG-effect list per seeded function (from the AST) and, independently,
+   the list `introspected` of public seeded callables (from `import xgi` + inspect.signature);
+2. lake build + audit of Props/C17.lean (`wellSeeded_sound` generic; `C17_table`, `C17_introspected_well_seeded` by
+   `decide`; `C17_same_seed_same_draws`); if a table theorem does not check, the driver names the functions that are
+   not well seeded / have no entry;
 3. dynamic part on the real code, for every public function with a `seed` parameter found by introspection:
    f(args, seed); perturb both global generators and call f with another seed; f(args', seed) with freshly
-   rebuilt arguments; the two results must be identical (structural snapshot / position arrays, exactly).
+   rebuilt arguments; the two results must be identical (structural snapshot incl. attributes / position arrays,
+   exactly).  Arguments: fixed base tuples (the floor) + tuples drawn from the harness PRNG + OPTION tuples derived
+   from the signature: every parameter with a default (other than `seed`) - and, for functions with `**kwargs`, the
+   keywords of networkx's spring_layout - is passed a non-default value in at least one call of every run (which
+   values, on which base tuple, and which combinations, is drawn from VERIF_SEED).
    Meanwhile the RNG entry points are wrapped: the sources consumed during the call must be among those the
    table attributes to the function, and the observed seed/draw order must obey the discipline whenever the
    table says the function is well seeded (this validates the translator's abstraction).
 """
 import glob
-import importlib
 import inspect
 import json
 import os
-import pkgutil
 import random
 import re
+import tempfile
 import time
 import warnings
 
@@ -127,12 +133,107 @@ TEMPLATES = {
     "weighted_barycenter_spring_layout": lambda r: f"(({_rand_h(r)},), {{}})",
     "spectral_clustering": lambda r: f"(({_rand_h(r, 8, 14)}, {r.randint(2, 3)}), {{}})",
 }
+# ----------------------------------------------------------------------------------------------------------
+# option values, derived from the signatures.  For every parameter with a default (except `seed`) the candidates are
+# looked up by (function, parameter), then by parameter name, then by the type of the default; a candidate is either a
+# python expression for the value (merged as a keyword into a base tuple) or a complete argument tuple ("full:" prefix;
+# needed where the value of one parameter dictates the shape of another, e.g. order / ps).  A candidate counts only when
+# the call accepts it (does not raise) and the parameter is then really bound to something different from its default.
+
+CAND = {
+    ("fast_random_hypergraph", "order"): ["full:((12, 0.2), {'order': 2})", "full:((9, [0.3, 0.05]), {'order': [1, 3]})",
+                                          "full:((8, [0.4]), {'order': [2]})", "full:((10, [0.2, 0.3]), {'order': np.array([2, 1])})"],
+    ("random_hypergraph", "order"): ["full:((9, 0.2), {'order': 2})", "full:((7, [0.4, 0.1]), {'order': [1, 3]})",
+                                     "full:((8, [0.3]), {'order': [2]})"],
+    ("flag_complex", "ps"): [f"full:(({_G1},), {{'max_order': 2, 'ps': [0.5]}})", f"full:(({_G2},), {{'max_order': 3, 'ps': [0.6, 0.4]}})",
+                             f"full:(({_G2},), {{'max_order': 4, 'ps': [0.7, 0.5, 0.5]}})", f"full:(({_G1},), {{'ps': [0.3, 0.9]}})"],
+    ("flag_complex", "max_order"): ["3", "1", "None", f"full:(({_G2},), {{'max_order': 3, 'ps': [0.5, 0.5]}})"],
+    ("uniform_erdos_renyi_hypergraph", "p_type"): ["full:((9, 3, 2.0), {'p_type': 'degree'})", "full:((8, 2, 1.5), {'p_type': 'degree'})",
+                                                   "full:((7, 3, 1.0), {'p_type': 'degree', 'multiedges': True})"],
+    ("spectral_clustering", "k"): ["3", "1", "4"],
+    (None, "k"): ["0.5", "2.0", "0.1"],                       # spring constant of the layouts
+    (None, "max_iter"): ["1", "3", "50"],
+    (None, "center"): ["[1.0, 2.0]", "np.array([-3.0, 0.5])", "(10, -10)"],
+    (None, "return_phantom_graph"): ["True"],
+    (None, "max_order"): ["3", "1", "4"],
+    (None, "ps"): ["[0.5]", "[0.5, 0.5]"],
+    (None, "p2"): ["0.5", "0.2", "0.9"],
+    (None, "rho"): ["0.3", "0.8", "0.1"],
+    (None, "multiedges"): ["True"],
+    (None, "p_type"): ["'degree'"],
+    (None, "order"): ["2", "1", "[1, 2]"],
+    (None, "weighted"): ["True"],
+}
+# functions with **kwargs forward them to networkx.spring_layout: its keywords (and `k` where the function has no named `k`)
+KW_CAND = {"iterations": ["10", "30", "3"], "scale": ["2.0", "0.5"], "threshold": ["0.001", "0.1"], "k": ["0.5", "2.0"],
+           "weight": ["None"], "center": ["[1.0, 1.0]"]}
+
+
+def candidates_for(fname, pname, default):
+    got = list(CAND.get((fname, pname), []))
+    got += [c for c in CAND.get((None, pname), []) if c not in got]
+    if not got:                                     # a parameter this file has never heard of: judge by the default
+        if isinstance(default, bool):
+            got = [repr(not default)]
+        elif isinstance(default, int):
+            got = [repr(default + 1), repr(max(default - 1, 0)), repr(default + 2)]
+        elif isinstance(default, float):
+            got = [repr(default / 2 + 0.05), repr(min(default * 1.5 + 0.05, 1.0))]
+        elif default is None:
+            got = ["0.5", "2", "True", "[1.0, 2.0]"]
+        elif isinstance(default, (list, tuple)) and default:
+            got = [repr(type(default)(list(default)[::-1])), repr(type(default)(list(default)[:1]))]
+    return got
+
+
 SEEDS_QUICK = [0, 1, 42]
 SEEDS_THOROUGH = [0, 1, 2, 3, 5, 7, 11, 42, 1234, 99991, 2 ** 31 - 1, 2 ** 32 - 1]
 
 
+def _with(argkw, opts):
+    """a base argument tuple with option keywords merged in"""
+    a, k = argkw
+    return a, {**k, **opts}
+
+
 def build_args(expr):
-    return eval(expr, {"xgi": xgi, "nx": nx, "np": np})  # noqa: S307 - harness-owned expressions
+    return eval(expr, {"xgi": xgi, "nx": nx, "np": np, "_with": _with})  # noqa: S307 - harness-owned expressions
+
+
+def with_opts(base, opts):
+    """expression of base tuple `base` with the option expressions `opts` (name -> python expression) passed as keywords"""
+    return f"_with({base}, {{" + ", ".join(f"{k!r}: {v}" for k, v in opts.items()) + "})"
+
+
+def _differs(v, default):
+    """`v` is a non-default value (numpy-safe)"""
+    if v is default:
+        return False
+    try:
+        return repr(snapshot(v)) != repr(snapshot(default))
+    except Exception:  # noqa
+        return True
+
+
+def bound_nondefault(fn, expr):
+    """parameters (named ones, and keywords that end up in **kwargs as `**name`) that the argument tuple `expr` binds to a
+    non-default value; None if the tuple does not even bind"""
+    sig = inspect.signature(fn)
+    try:
+        args, kw = build_args(expr)
+        ba = sig.bind(*args, seed=0, **kw)
+    except Exception:  # noqa
+        return None
+    out = set()
+    for name, v in ba.arguments.items():
+        par = sig.parameters[name]
+        if par.kind is par.VAR_KEYWORD:
+            out |= {"**" + k for k in v}
+        elif par.kind is par.VAR_POSITIONAL:
+            continue
+        elif name != "seed" and par.default is not inspect.Parameter.empty and _differs(v, par.default):
+            out.add(name)
+    return out
 
 
 # ----------------------------------------------------------------------------------------------------------
@@ -151,14 +252,17 @@ def snapshot(o):
     if isinstance(o, (xgi.Hypergraph, xgi.SimplicialComplex)):
         mem = o.edges.members(dtype=dict)
         return {"type": type(o).__name__, "nodes": [repr(_norm(n)) for n in o.nodes],
-                "edges": [[repr(_norm(e)), sorted(repr(_norm(n)) for n in ms)] for e, ms in mem.items()]}
+                "edges": [[repr(_norm(e)), sorted(repr(_norm(n)) for n in ms)] for e, ms in mem.items()],
+                "attrs": _xgi_attrs(o)}
     if isinstance(o, xgi.DiHypergraph):
         return {"type": "DiHypergraph", "nodes": [repr(_norm(n)) for n in o.nodes],
                 "edges": [[repr(_norm(e)), sorted(repr(_norm(n)) for n in o.edges.tail(e)),
-                           sorted(repr(_norm(n)) for n in o.edges.head(e))] for e in o.edges]}
+                           sorted(repr(_norm(n)) for n in o.edges.head(e))] for e in o.edges],
+                "attrs": _xgi_attrs(o)}
     if isinstance(o, (nx.Graph,)):
-        return {"type": "Graph", "nodes": sorted(repr(_norm(n)) for n in o.nodes),
-                "edges": sorted(sorted([repr(_norm(a)), repr(_norm(b))]) for a, b in o.edges)}
+        return {"type": type(o).__name__, "nodes": sorted([repr(_norm(n)), _attrs(d)] for n, d in o.nodes(data=True)),
+                "edges": sorted([sorted([repr(_norm(a)), repr(_norm(b))]), _attrs(d)] for a, b, d in o.edges(data=True)),
+                "graph": _attrs(o.graph)}
     if isinstance(o, dict):
         return {"dict": [[repr(_norm(k)), snapshot(v)] for k, v in o.items()]}
     if isinstance(o, (list, tuple)):
@@ -171,6 +275,29 @@ def snapshot(o):
     if isinstance(o, (int, float, str, bool)) or o is None:
         return o
     return repr(o)
+
+
+def _attrs(d):
+    """an attribute dict, keys sorted; empty -> [] (keeps snapshots of attribute-free networks short)"""
+    return sorted([repr(_norm(k)), snapshot(v)] for k, v in d.items()) if d else []
+
+
+def _xgi_attrs(o):
+    """node, edge and network attributes of an xgi network (only the non-empty ones)"""
+    out = {}
+    try:
+        na = {repr(_norm(n)): _attrs(d) for n, d in o.nodes.attrs.asdict().items() if d}
+        ea = {repr(_norm(e)): _attrs(d) for e, d in o.edges.attrs.asdict().items() if d}
+        net = _attrs(dict(o._net_attr)) if hasattr(o, "_net_attr") else []
+    except Exception as e:  # noqa
+        return {"unreadable": type(e).__name__}
+    if na:
+        out["nodes"] = na
+    if ea:
+        out["edges"] = ea
+    if net:
+        out["net"] = net
+    return out
 
 
 def nontrivial(snap):
@@ -311,25 +438,12 @@ def perturb(rng, fn, expr, seed):
 # discovery
 
 def discover():
-    """every function defined in the xgi package that has a `seed` parameter: name -> (function, public?)"""
-    found = {}
-    mods = [xgi]
-    for mi in pkgutil.walk_packages(xgi.__path__, "xgi."):
-        try:
-            mods.append(importlib.import_module(mi.name))
-        except Exception:  # noqa
-            continue
-    for m in mods:
-        for name, o in vars(m).items():
-            if inspect.isfunction(o) and getattr(o, "__module__", "").startswith("xgi") and o.__module__ == m.__name__:
-                try:
-                    ps = inspect.signature(o).parameters
-                except (TypeError, ValueError):
-                    continue
-                if "seed" in ps:
-                    public = not any(p.startswith("_") for p in (o.__module__ + "." + name).split("."))
-                    found[name] = (o, public)
-    return found
+    """every callable of the imported xgi package that has a `seed` parameter: name -> (callable, public?).
+    One implementation with the list `introspected` of the generated Lean file: harness/c17_translate.py."""
+    found, private, errors = TR.introspect_here()
+    out = {n: (f, True) for n, f in found.items()}
+    out.update({n: (f, False) for n, f in private.items() if n not in out})
+    return out
 
 
 def guessed_grid(fn):
@@ -344,6 +458,70 @@ def guessed_grid(fn):
     return out
 
 
+def option_plan(ctx, name, fn, bases, accepted):
+    """OPTION tuples for one function, derived from its signature.
+    For every parameter with a default other than `seed` (and, if the function has **kwargs, for every keyword of
+    KW_CAND that is not a named parameter) find argument tuples that bind it to a non-default value and are accepted
+    (`accepted(expr)`): at least one per parameter in every run - the candidates are tried in an order drawn from
+    ctx.rng until `want` are accepted, so which value / which base tuple is used varies with VERIF_SEED while the
+    coverage of the parameters does not.  Then some combinations of several options (drawn from ctx.rng).
+    Returns (list of expr, {option: [values exercised]}, {option: reason it could not be exercised})"""
+    r = ctx.rng
+    sig = inspect.signature(fn)
+    opts = []
+    for p, par in sig.parameters.items():
+        if p == "seed":
+            continue
+        if par.kind is par.VAR_KEYWORD:
+            opts += [("**" + k, None, list(vs)) for k, vs in KW_CAND.items() if k not in sig.parameters]
+        elif par.kind is not par.VAR_POSITIONAL and par.default is not inspect.Parameter.empty:
+            opts.append((p, par.default, candidates_for(name, p, par.default)))
+    exprs, exercised, failed, single = [], {}, {}, {}
+    want = ctx.n(2, 3)
+    for opt, default, cands in opts:
+        key = opt.lstrip("*")
+        trials = []
+        for c in cands:
+            if c.startswith("full:"):
+                trials.append((c[5:], c[5:]))
+            else:
+                trials += [(with_opts(b, {key: c}), c) for b in bases]
+        r.shuffle(trials)
+        got = []
+        # a base tuple may bind the option already (e.g. positionally): that counts, and is free
+        for b in bases:
+            nd = bound_nondefault(fn, b)
+            if nd and opt in nd:
+                got.append("<base tuple>")
+                break
+        for expr, val in trials:
+            if len([g for g in got if g != "<base tuple>"]) >= want:
+                break
+            nd = bound_nondefault(fn, expr)
+            if nd is None or opt not in nd:
+                continue                      # does not bind / the value equals the default after all
+            if expr in exprs or accepted(expr):
+                if expr not in exprs:
+                    exprs.append(expr)
+                got.append(val if len(val) < 60 else val[:57] + "...")
+                if not val.startswith("(("):
+                    single.setdefault(key, []).append(val)
+        if got:
+            exercised[opt] = got
+        else:
+            failed[opt] = ("no candidate value known for this parameter" if not cands else
+                           f"none of {len(trials)} candidate tuples was accepted with a non-default value")
+    # combinations of several options on one base tuple
+    keys = sorted(single)
+    for _ in range(ctx.n(3, 6) if len(keys) >= 2 else 0):
+        pick = r.sample(keys, r.randint(2, min(3, len(keys))))
+        expr = with_opts(r.choice(bases), {k: r.choice(single[k]) for k in pick})
+        if expr not in exprs and accepted(expr):
+            exprs.append(expr)
+            exercised.setdefault("<combinations>", []).append("+".join(sorted(pick)))
+    return exprs, exercised, failed
+
+
 # ----------------------------------------------------------------------------------------------------------
 
 class Checker:
@@ -354,6 +532,7 @@ class Checker:
         self.not_exercised = {}
         self.exercised = set()
         self.sampled = set()
+        self.params_called = {}         # function -> options bound to a non-default value in a call that completed
 
     def check(self, name, fn, expr, seed, repeats=1, validate=True):
         """the C17 predicate on the implementation: True = held"""
@@ -379,6 +558,7 @@ class Checker:
                 break
         ctx.stats["outcome:ok" if held else "outcome:differs"] += 1
         self.exercised.add(name)
+        self.params_called.setdefault(name, set()).update(bound_nondefault(fn, expr) or ())
         if held and nontrivial(s1) and (r1.events or r1.touched() or self.info.get(name, {}).get("draw")):
             ctx.nontrivial.add(jhash([name, expr, seed, s1]))
         if name not in self.sampled:
@@ -398,8 +578,9 @@ class Checker:
             return
         ctx.traces += 1
         drew, touched = rec.drew(), rec.touched()
-        extra = drew - inf["draw"]
-        extra_t = touched - inf["draw"] - inf["seed"]
+        allowed = inf["draw"] | ({"pyGlobal", "npGlobal", "osEntropy"} if "unknown" in inf["draw"] else set())
+        extra = drew - allowed
+        extra_t = touched - allowed - inf["seed"]
         problem = None
         if extra:
             problem = f"{name} drew from {sorted(extra)} but the table attributes only {sorted(inf['draw'])} to it"
@@ -438,16 +619,22 @@ def table_facts(ctx, tab):
         ctx.stats["model:well-seeded" if ws["ok"] else "model:ill-seeded"] += 1
         if not ws["ok"]:
             ctx.stats["model:ill-seeded-trace-differs"] += 0 if same else 1
-    return info, set(resp[0]["public"])
+    return info, resp[0]
 
 
 def run(ctx):
     warnings.simplefilter("ignore")
+    # translate -> build -> audit is one critical section under the project lock (core.build_and_audit)
     try:
-        tab, notes, changed = TR.translate()
+        ok = build_and_audit(ctx, "XgiModel.Props.C17", ["XgiModel.C17.Drive"], translate=TR.translate)
     except (SyntaxError, FileNotFoundError) as e:
         raise Infra(f"translator cannot read the source: {e}")
-    ok = build_and_audit(ctx, "XgiModel.Props.C17", ["XgiModel.C17.Drive"], translate=TR.translate)
+    except TR.TreeMismatch as e:
+        raise Infra(str(e))
+    tab, notes, changed, lean_public = TR.LAST["table"], TR.LAST["notes"], TR.LAST["changed"], TR.LAST["introspected"]
+    if not TR._same_tree(TR.LAST["repo"]):
+        raise Infra(f"`import xgi` resolves to {os.path.dirname(xgi.__file__)} but the translator reads {TR.LAST['repo']}/xgi "
+                    "(XGI_REPO without PYTHONPATH? use ./check): refusing to test one tree against the table of another")
     build_errors = []
     if not ok:
         good, out = lean_build(["XgiModel.C17.Drive"])
@@ -455,39 +642,53 @@ def run(ctx):
             raise Infra("generated SeedTable.lean / driver does not build: " + out[-800:])
         build_errors = _failed_theorems(ctx)
         _partial_audit(ctx)
-    info, table_public = table_facts(ctx, tab)
+    info, drv = table_facts(ctx, tab)
+    if sorted(drv["introspected"]) != sorted(lean_public):
+        raise Infra("driver's `introspected` differs from the translator's (stale build?)")
     ill = sorted(n for n, i in info.items() if not i["ok"])
     if ill:
         ctx.broken.append("C17_table: not well seeded in the current source: " +
                           ", ".join(f"{n} (first offending effect: {info[n]['first_bad']})" for n in ill))
-    if ok and ill:
-        ctx.broken.append("inconsistent: Props/C17 built although the driver finds ill-seeded functions")
+    if ok and (ill or drv["introspectedBad"]):
+        ctx.broken.append("inconsistent: Props/C17 built although the driver finds ill-seeded / missing functions")
 
     found = discover()
     public = {n: f for n, (f, p) in found.items() if p}
+    if sorted(public) != sorted(lean_public):
+        raise Infra("in-process introspection differs from the list rendered into SeedTable.lean")
     missing = sorted(set(public) - set(info))
     if missing:
-        ctx.broken.append(f"translator~implementation: functions with a seed parameter missing from the table: {missing}")
+        ctx.broken.append("C17_introspected_well_seeded: public callables with a `seed` parameter (found by importing the package) "
+                          f"that have no entry in the table translated from the source: {missing}")
     ch = Checker(ctx, info)
     seeds = list(SEEDS_QUICK if ctx.quick else SEEDS_THOROUGH) + [ctx.rng.randrange(2 ** 32) for _ in range(ctx.n(1, 6))]
-    grid, unusable = {}, []
+    # option tuples get fewer seeds each in the quick tier (there are many of them): one fixed, one drawn
+    seeds_opt = ([1, ctx.rng.randrange(2 ** 32)] if ctx.quick else seeds)
+    grid, optgrid, unusable = {}, {}, []
+    options_exercised, options_failed = {}, {}
+
+    def accepted_by(n, f):
+        def acc(expr):
+            try:
+                build_args(expr)
+                k, s, _ = call(f, expr, 0, record=False)
+            except Exception as e:  # noqa
+                unusable.append(f"{n}: {expr}: {type(e).__name__}")
+                return False
+            if k != "ok":
+                unusable.append(f"{n}(*{expr}) raises {s}")
+            return k == "ok"
+        return acc
+
     for n, f in sorted(public.items()):
         g = list(GRID.get(n) or guessed_grid(f))
         if n in TEMPLATES:
             g += [TEMPLATES[n](ctx.rng) for _ in range(ctx.n(1, 8))]
-        usable = []
-        for expr in g:
-            try:
-                build_args(expr)
-                k, s, _ = call(f, expr, 0, record=False)
-                if k == "ok":
-                    usable.append(expr)
-                else:
-                    unusable.append(f"{n}(*{expr}) raises {s}")
-            except Exception as e:  # noqa
-                unusable.append(f"{n}: {expr}: {type(e).__name__}")
+        acc = accepted_by(n, f)
+        usable = [expr for expr in g if acc(expr)]
         if usable:
             grid[n] = usable
+            optgrid[n], options_exercised[n], options_failed[n] = option_plan(ctx, n, f, usable, acc)
         else:
             ch.not_exercised[n] = "no argument tuple of the grid is accepted" if g else "no arguments known for this signature"
 
@@ -502,6 +703,20 @@ def run(ctx):
         for expr in exprs:
             for s in seeds:
                 ch.check(n, public[n], expr, s, repeats=ctx.n(1, 3))
+        for expr in optgrid.get(n, []):
+            ctx.stats["option-tuples"] += 1
+            for s in seeds_opt:
+                ch.check(n, public[n], expr, s, repeats=ctx.n(1, 3))
+
+    # every defaulted parameter must have been passed a non-default value in a call that completed
+    never = {}
+    for n in grid:
+        ps = inspect.signature(public[n]).parameters
+        want = {p for p, v in ps.items() if p != "seed" and v.default is not inspect.Parameter.empty
+                and v.kind not in (v.VAR_KEYWORD, v.VAR_POSITIONAL)}
+        lack = sorted(want - ch.params_called.get(n, set()))
+        if lack:
+            never[n] = lack
 
     # --- verdict -------------------------------------------------------------------------------------------
     if ch.dis:
@@ -515,7 +730,7 @@ def run(ctx):
             continue
         # targeted search: more seeds, more repetitions (entropy-dependent results need not differ every time)
         t_end = time.time() + ctx.n(12, 240)
-        for expr in grid[n]:
+        for expr in grid[n] + optgrid.get(n, []):
             for s in SEEDS_THOROUGH + [ctx.rng.randrange(2 ** 32) for _ in range(ctx.n(4, 20))]:
                 if time.time() > t_end:
                     break
@@ -526,8 +741,9 @@ def run(ctx):
                 break
     concrete = {v["site"] for v in ctx.violations if v["kind"] == "concrete"}
     unexplained = [n for n in ill if n not in concrete and not (n not in public and _callers_concrete(n, tab, concrete))]
-    other_errors = [e for e in build_errors if e != "C17_table"]
-    if not ok and not build_errors and not ill:
+    table_thms = ("C17_table", "C17_introspected_well_seeded", "C17_same_seed_same_draws")   # fail when the table instance fails
+    other_errors = [e for e in build_errors if e not in table_thms]
+    if not ok and not build_errors and not ill and not missing:
         other_errors = ["<build/audit failed>"]
     for n in unexplained:
         ctx.violation(n, "not-well-seeded", {"function": n, "effects": info[n]["effs"], "first_offending": info[n]["first_bad"],
@@ -538,36 +754,67 @@ def run(ctx):
         if d["function"] not in concrete:
             ctx.violation(d["function"], "translator-mismatch", d, detail=d["problem"], kind="unproven",
                           broken=["translator~implementation"])
-    if other_errors or missing or any(b.startswith(("model sanity", "inconsistent")) for b in ctx.broken):
+    for n in missing:
+        if n not in concrete:
+            ctx.violation(n, "not-in-table", {"function": n, "broken": ["C17_introspected_well_seeded"]},
+                          detail=f"{n} is a public callable with a `seed` parameter (import xgi + inspect.signature) but the AST "
+                                 "translator has no entry for it: nothing is proved about it; no differing pair of calls found",
+                          kind="unproven", broken=["C17_introspected_well_seeded"])
+    if other_errors or any(b.startswith(("model sanity", "inconsistent")) for b in ctx.broken):
         # something else than the table instance broke: no concrete input can explain that
         ctx.violation("model-tie", "unproven", {"broken": ctx.broken, "theorems": other_errors}, detail="; ".join(ctx.broken)[:500],
                       kind="unproven", broken=ctx.broken)
 
-    ctx.rule = ("every public function of xgi with a `seed` parameter (found by introspection) x argument tuples of a fixed grid "
-                "(rebuilt for every call) x seeds (fixed list incl. 0 and 2^32-1, plus seeds from VERIF_SEED): call, perturb "
-                "(draw from / reseed random and numpy.random, call f with another seed; 4 modes chosen by the PRNG), call again, "
-                "compare exactly; non-trivial = distinct (function, args, seed, result) whose result is not tiny and whose "
-                "function consumes randomness")
+    ctx.rule = ("every public callable of xgi with a `seed` parameter (import xgi + inspect.signature over all public modules) x "
+                "argument tuples x seeds: call, perturb (draw from / reseed random and numpy.random, call f with another seed; 4 modes "
+                "chosen by the PRNG), call again with rebuilt arguments, compare exactly (structure, attributes, float positions).  "
+                "Argument tuples = fixed base tuples (floor, seeds: fixed list incl. 0 [thorough: and 2^32-1] plus seeds from VERIF_SEED) "
+                "+ base tuples drawn from VERIF_SEED + OPTION tuples derived from the signature: every parameter with a default other "
+                "than `seed`, and for functions with **kwargs the keywords of networkx.spring_layout (iterations, scale, threshold, "
+                "k, ...), is bound to a non-default value in at least one completed call of every run; candidate values come from a "
+                "table keyed by (function, parameter) / parameter name / type of the default; which value, on which base tuple, and "
+                "which combinations of options are used is drawn from VERIF_SEED (option tuples: 2 seeds each in the quick tier).  "
+                "non-trivial = distinct (function, args, seed, result) whose result is not tiny and whose function consumes randomness")
     ctx.assumptions = [
         "single interpreter process, single thread; floats of layouts compared exactly between the two calls (no tolerance)",
-        "the theorem is about the regenerated effect table: loops/branches flattened to one effect per call site; the table's "
-        "faithfulness is validated dynamically (wrapped random.*, numpy.random.*, default_rng; state diffs of both global generators)",
-        "library classification (networkx seed= -> local generator; eigsh without v0/rng -> OS entropy; an explicit v0 makes eigsh "
-        "deterministic, ARPACK restarts not modelled) is part of the trusted translator",
+        "PROVED (Lean): equality of the draw traces of the flattened effect list under the seeding discipline, for all generator "
+        "families and all worlds (wellSeeded_sound); the discipline holds for every entry of the regenerated table (C17_table, by "
+        "decide); every public seeded callable found by importing the package has a well-seeded entry (C17_introspected_well_seeded, "
+        "by decide, against a list that is not rendered from the table); hence C17_same_seed_same_draws for exactly those functions",
+        "DECIDED AT RUN TIME ONLY: that equal draws give identical *output* (double-call comparison on the argument tuples above - set/"
+        "dict order, data-dependent draw counts, library internals are invisible to the model); that the table is a faithful reading "
+        "of the Python text (loops/branches flattened to one effect per call site; validated by wrapping random.*, numpy.random.*, "
+        "default_rng and diffing both global generator states around every call)",
+        "TRUSTED: harness/c17_translate.py incl. its explicit classification tables (random / numpy.random functions; networkx "
+        "seed= -> local generator, without seed -> the global generator it falls back to; eigsh without v0/rng -> OS entropy, an "
+        "explicit v0 makes it deterministic, ARPACK restarts not modelled; pure namespaces; deterministic builtins and method "
+        "names); a call it cannot resolve is `draw unknown` (fails the discipline), never dropped",
+        "OUTSIDE THE MODEL: callables supplied by the caller as arguments; float nondeterminism of BLAS threading; hash randomisation "
+        "across processes (./check pins PYTHONHASHSEED); functions without a `seed` parameter; the argument space is sampled, not "
+        "enumerated",
     ]
     ctx.exhaustive = not ch.not_exercised and not missing
-    ctx.extra["exhaustive_space"] = ("the finite set of public functions with a `seed` parameter (introspection): every one is in the "
-                                     "regenerated table, was called, and had its RNG consumption checked against the table"
-                                     if ctx.exhaustive else "not exhaustive: see not_exercised")
+    ctx.extra["exhaustive_space"] = ("ONLY the finite set of public callables with a `seed` parameter is enumerated completely (import xgi + "
+                                     "inspect.signature): every one has an entry in the regenerated table, was called, and had its RNG "
+                                     "consumption checked against the table.  The argument space is sampled (see rule), not enumerated."
+                                     if ctx.exhaustive else "not exhaustive: see not_exercised / missing_from_table")
     ctx.extra.update(
         seeded_functions_discovered=sorted(public), private_seeded=sorted(n for n, (f, p) in found.items() if not p),
-        exercised=sorted(ch.exercised), not_exercised=ch.not_exercised, argument_tuples_rejected=unusable, seeds=seeds,
+        ast_public_not_importable=sorted(set(drv["public"]) - set(public)), missing_from_table=missing,
+        introspection=TR.LAST["how"], introspection_import_errors=TR.LAST["import_errors"],
+        exercised=sorted(ch.exercised), not_exercised=ch.not_exercised, argument_tuples_rejected=unusable[:60], seeds=seeds,
+        seeds_for_option_tuples=seeds_opt,
+        options_exercised=options_exercised, options_not_exercisable={n: d for n, d in options_failed.items() if d},
+        defaulted_parameters_never_given_a_non_default_value=never,
+        option_tuples={n: len(v) for n, v in optgrid.items()},
         table={n: i["effs"] for n, i in info.items()}, ill_seeded=ill, translator_notes=notes,
         table_regenerated=changed, disagreements=ch.dis,
         sources_attributed={n: sorted(i["draw"]) for n, i in info.items()},
     )
     return finish(ctx, trusted_base=TRUSTED_COMMON + [
-        "harness/c17_translate.py (ast walk + classification tables of random / numpy.random / networkx / scipy calls)",
+        "harness/c17_translate.py (ast walk, import + local-alias resolution, inlining of unseeded helpers; explicit classification "
+        "tables of random / numpy.random / networkx / scipy calls, pure namespaces, deterministic builtins and method names; "
+        "unresolved calls -> `draw unknown`); its introspection half (import xgi + inspect.signature) for the list `introspected`",
         "the effect semantics of lean/XgiModel/C17/Rng.lean as a description of CPython's `random`, numpy's global RandomState and "
         "seeded local generators (streams determined by the seed)"])
 
@@ -581,21 +828,28 @@ def _callers_concrete(n, tab, concrete):
 
 
 def _partial_audit(ctx):
-    """Props/C17.lean did not build as a whole (the table instance fails on this source).  Elaborate the file once more
+    """Props/C17.lean did not build as a whole (a table instance fails on this source).  Elaborate the file once more
     with `#print axioms` appended: Lean keeps going after a failed proof (the failed theorem is admitted with `sorryAx`,
-    and so is everything that uses it), so the theorems that still check are exactly those whose axioms are admissible."""
+    and so is everything that uses it), so the theorems that still check are exactly those whose axioms are admissible.
+    The scratch file is private to this process and removed afterwards."""
+    from ..core import ALLOWED_AXIOMS, OUT, run_proc, theorems_of
     import subprocess
-    from ..core import ALLOWED_AXIOMS, OUT, theorems_of
     thms = theorems_of("XgiModel.Props.C17")
     src = open(os.path.join(LEAN, "XgiModel", "Props", "C17.lean")).read()
-    tmp = os.path.join(OUT, "C17_partial_audit.lean")
     os.makedirs(OUT, exist_ok=True)
-    with open(tmp, "w") as f:
-        f.write(src + "\n" + "".join(f"#print axioms {t}\n" for t in thms))
+    fd, tmp = tempfile.mkstemp(prefix=f"C17_partial_audit.{os.getpid()}.", suffix=".lean", dir=OUT)
     try:
-        p = subprocess.run(["lake", "env", "lean", tmp], cwd=LEAN, capture_output=True, text=True, timeout=900)
-    except subprocess.TimeoutExpired:
-        return
+        with os.fdopen(fd, "w") as f:
+            f.write(src + "\n" + "".join(f"#print axioms {t}\n" for t in thms))
+        try:
+            p = run_proc(["lake", "env", "lean", tmp], cwd=LEAN, timeout=900)
+        except subprocess.TimeoutExpired:
+            return
+    finally:
+        try:
+            os.remove(tmp)
+        except OSError:
+            pass
     flat = re.sub(r"\s+", " ", p.stdout + p.stderr)
     done = []
     for t in thms:
